@@ -46,8 +46,12 @@ UF = {}
 
 def uf(name, arity=1):
     if name not in UF:
-        UF[name] = z3.Function(name, *([z3.RealSort()] * (arity + 1)))
+        UF[name] = z3.Function('fn_' + name, *([z3.RealSort()] * (arity + 1)))
     return UF[name]
+
+
+def uf_const(name):
+    return z3.Real('const:' + name)
 
 
 def real(v):
@@ -154,11 +158,20 @@ def call(ex, n, st, q, rd, objn, argn, method, want_lv):
             r = algo_call(ex, n, st, name, argn)
             if r is not NOMODEL:
                 return r
+        if name in ('two_pi', 'pi', 'one_div_root_two_pi') and not argn:
+            ex.ideal = True
+            PI = uf_const('PI')
+            return RealV({'two_pi': 2 * PI, 'pi': PI, 'one_div_root_two_pi': uf_const('ONE_DIV_ROOT_TWO_PI')}[name], DOUBLE)
         args = [ex.ev(a, st) for a in argn]
         r = math_call(ex, st, name, args)
         return r
     # ---- methods on library classes
     ots = objn.get('type', {}).get('desugaredQualType') or objn.get('type', {}).get('qualType', '')
+    if strip_quals(ots).startswith(('std::normal_distribution', 'std::uniform_real_distribution')) and name == 'operator()':
+        # random draw: an unconstrained real (recorded so that posts can name it)
+        r = State.fresh('random', z3.RealSort())
+        ex.randoms.append(r)
+        return RealV(r, FLOAT)
     if strip_quals(ots).endswith('*'):
         ots = strip_quals(ots)[:-1]
         if '::element_type' in ots:
@@ -219,9 +232,7 @@ def call(ex, n, st, q, rd, objn, argn, method, want_lv):
             a = st.array(region, '', ct)
             k = z3.Int('k!resize')
             if fillv is not None:
-                fresh = State.fresh(region, a.sort())
-                st.assume(z3.ForAll([k], z3.Select(fresh, k) == z3.If(k < oldlen, z3.Select(a, k), real(fillv))))
-                st.arr[(region, '')] = fresh
+                st.arr[(region, '')] = z3.Lambda([k], z3.If(k < oldlen, z3.Select(a, k), real(fillv)))
             st.length[region] = sz.t
             ex.logw(('r', region)); ex.logw(('len', region))
             return VoidV()
@@ -260,6 +271,8 @@ def call(ex, n, st, q, rd, objn, argn, method, want_lv):
                 raise ExtractionError(f'{ex.unit}: std::array index must be concrete here (line {ex.curline})')
             ct = parse_type(n['type'])
             path = f'{o.name}[{s.as_long()}]'
+            if path in st.scal and isinstance(st.scal[path], ObjRef):
+                return st.scal[path]
             if ct.kind in ('int', 'float'):
                 if path not in st.scal:
                     ex.new_scalar(st, path, ct)
@@ -310,6 +323,8 @@ def call(ex, n, st, q, rd, objn, argn, method, want_lv):
             key = ex.ev(argn[0], st)
             ks = key.what if isinstance(key, Opaque) else str(key)
             ks = ks.replace('string:', '').strip('"')
+            if ks in ('string', ''):
+                raise ExtractionError(f'{ex.unit}: map key is not a literal (line {ex.curline})')
             path = f'{o.name}[{ks}]'
             if path not in st.scal:
                 ex.new_scalar(st, path, FLOAT)
@@ -402,10 +417,8 @@ def copy_range(ex, st, src, dst, count, leaf='', ct=FLOAT):
         a = st.array(src.region, lf, lct)
         d = st.array(dst.region, lf, lct)
         k = z3.Int('k!copy')
-        fresh = State.fresh(dst.region, d.sort())
-        st.assume(z3.ForAll([k], z3.Select(fresh, k) == z3.If(z3.And(k >= dst.off, k < dst.off + count),
-                                                                 z3.Select(a, k - dst.off + src.off), z3.Select(d, k))))
-        st.arr[(dst.region, lf)] = fresh
+        st.arr[(dst.region, lf)] = z3.Lambda([k], z3.If(z3.And(k >= dst.off, k < dst.off + count),
+                                                         z3.Select(a, k - dst.off + src.off), z3.Select(d, k)))
     ex.logw(('r', dst.region))
     from .vcg import LElem
     ex.frame_range(st, dst.region, dst.off, dst.off + count)
@@ -416,9 +429,7 @@ def fill_range(ex, st, dst, count, val, leaf='', ct=FLOAT):
     ex.safe(st, 'fill-range', z3.Or(count <= 0, z3.And(dst.off >= 0, dst.off + count <= dl)), f'fill range in {dst.region}')
     d = st.array(dst.region, leaf, ct)
     k = z3.Int('k!fill')
-    fresh = State.fresh(dst.region, d.sort())
-    st.assume(z3.ForAll([k], z3.Select(fresh, k) == z3.If(z3.And(k >= dst.off, k < dst.off + count), val, z3.Select(d, k))))
-    st.arr[(dst.region, leaf)] = fresh
+    st.arr[(dst.region, leaf)] = z3.Lambda([k], z3.If(z3.And(k >= dst.off, k < dst.off + count), val, z3.Select(d, k)))
     ex.logw(('r', dst.region))
     ex.frame_range(st, dst.region, dst.off, dst.off + count)
 
@@ -546,6 +557,15 @@ def construct(ex, n, st, ct):
     """CXXConstructExpr of non-POD class types"""
     k = class_kind(ct.name)
     args = n.get('inner', [])
+    if k == 'string':
+        lit = find_string_literal(n)
+        if lit is not None:
+            return Opaque('string:' + lit)
+        if len(args) >= 1 and parse_type(args[0].get('type')).kind == 'class':
+            v = ex.ev_obj(args[0], st)
+            if isinstance(v, Opaque):
+                return v
+        return Opaque('string')
     if k in ('sptr', 'uptr') or k in ('vector', 'marray', 'stdarray', 'string', 'map', 'queue'):
         if len(args) == 1:
             # copy / move / conversion: reference semantics are enough for the units handled
@@ -638,3 +658,15 @@ def range_for(ex, n, st):
 
 def try_stmt(ex, n, st):
     raise ExtractionError(f'{ex.unit}: try statement not modelled here (line {ex.curline})')
+
+
+def find_string_literal(n):
+    if not isinstance(n, dict):
+        return None
+    if n.get('kind') == 'StringLiteral':
+        return n.get('value', '').strip('"')
+    for c in n.get('inner', []) or []:
+        r = find_string_literal(c)
+        if r is not None:
+            return r
+    return None
